@@ -190,6 +190,11 @@ def list_family() -> list:
                                      FOR(f"j{n}", CALL("len", V(xs)), [AUG(f"t{n}", "+", INDEX(V(xs), V(f"j{n}")))]), WRITE(V(f"t{n}"))], [a], "list"))
         n += 1
         xs = f"xs{n}"
+        # remove() takes the FIRST occurrence only - also when another occurrence follows after other elements
+        out.append(snip(f"lremdup{n}", [ASSIGN(xs, LIST(I(4), I(1), I(4), I(2), I(4))), REMOVE(xs, I(4)), WRITE(INDEX(V(xs), I(-1))), WRITE(INDEX(V(xs), I(1))), APPEND(xs, AREAD()),
+                                        WRITE(INDEX(V(xs), I(4))), REMOVE(xs, I(4)), WRITE(INDEX(V(xs), I(-2))), WRITE(INDEX(V(xs), I(0)))], [a + 7], "list"))
+        n += 1
+        xs = f"xs{n}"
         out.append(snip(f"lfloat{n}", [ASSIGN(xs, LIST(F(0.5), F(1.5))), APPEND(xs, BIN("*", AREAD(), F(0.5))), WRITE(INDEX(V(xs), I(2))), WRITE(INDEX(V(xs), I(0)))], [a], "list"))
     return out
 
@@ -242,6 +247,11 @@ def fn_programs() -> list:
          ASSIGN("scaled", BIN("*", V("ratio"), I(100))), WRITE(V("scaled")), WRITE(CALL("trim", I(3))),
          IF([(CMP(V("reading"), (">", I(10))), [ASSIGN("m1", I(1))]), (CMP(V("reading"), (">", I(5))), [ASSIGN("m2", F(2.5))])], [ASSIGN("m3", S("low"))]), WRITE(V("m2")),
          IF([(CMP(V("reading"), (">", I(10))), [ASSIGN("n1", I(1))]), (CMP(V("reading"), (">", I(8))), [ASSIGN("n2", F(2.5))])], [ASSIGN("n3", S("low"))]), WRITE(V("n3"))], ain=[7])
+    # a helper with two variants (int and float argument) is called with the float from inside ANOTHER helper that is defined above it
+    add("fn_variant_called_from_earlier_helper",
+        {"outer": DEF(["v"], [RETURN(CALL("scaled", BIN("*", V("v"), F(0.5))))]), "scaled": DEF(["x"], [RETURN(BIN("*", V("x"), I(3)))]),
+         "late": DEF(["v"], [RETURN(CALL("scaled", BIN("*", V("v"), F(0.25))))])},
+        [WRITE(CALL("scaled", I(2))), WRITE(CALL("outer", I(5))), WRITE(CALL("late", I(5)))], loop=[WRITE(CALL("outer", AREAD())), WRITE(CALL("scaled", AREAD()))], ain=[3, 4, 5, 6], npass=2)
     # annotated parameters: Python does not enforce annotations - the value the call site passes is the value the parameter holds
     add("fn_annotated_param", {"scale": DEF(["raw", "k"], [RETURN(BIN("*", V("raw"), V("k")))], ann={"raw": "int"}),
                                "lbl": DEF(["t", "n"], [RETURN(FSTR("", V("t"), ":", V("n")))], ann={"t": "str", "n": "float"})},
